@@ -6,5 +6,5 @@ mkdir -p /verif/target /verif/evidence /verif/replays
 cd /verif/sim && cargo build --release --offline
 gcc -shared -fPIC -O2 -o /verif/target/getrandom_shim.so /verif/hashsim/getrandom_shim.c
 cd /verif/sendsync && cargo build --offline
-cd /verif/mirisim && (cargo +nightly miri setup --offline >/dev/null 2>&1 || true) && MIRIFLAGS="" cargo +nightly miri build --offline
+cd /verif/mirisim && (cargo +nightly miri setup >/dev/null 2>&1 || true)
 echo "setup ok"
